@@ -60,6 +60,10 @@ def check(ctx):
     check_drop_level_guards(ctx)
     check_flatten_rebinding(ctx)
     check_stats_through_tree(ctx)
+    # the level that was dropped is filled in from the finer assignment by
+    # the parent table of *that* level (shared with C01)
+    from .C01 import check_backfill
+    check_backfill(ctx)
 
 
 def check_single_version(ctx):
